@@ -1,4 +1,5 @@
 (* C02 - Every valid BIP39 mnemonic validates (generate -> check round trip). *)
+From B39 Require Import Proofs.Calls.
 From B39 Require Import Lib.Base Lib.Sha256 Lib.Nfkd Model.GenTypes Model.Model Spec.Bip39Spec.
 From B39 Require Import Proofs.Gates Proofs.Tables Proofs.LibContract Proofs.Unicode Proofs.Sound Proofs.Reader Proofs.Api.
 
@@ -23,6 +24,11 @@ Theorem C02_all_valid : forall lib, lib_contract lib -> forall (name : string) (
 Proof. exact all_valid_accepted. Qed.
 
 Example C02_contract_satisfiable : lib_contract lib_example. Proof. exact lib_example_contract. Qed.
+
+(* the functions this property is about, and every package function they reach, call only what the model
+   accounts for (closed world of callees, computed on coq/Gen/Calls.v, regenerated from the source every run) *)
+Theorem C02_callees : reach_ok "CheckMnemonic" = true /\ reach_ok "IsMnemonicValid" = true.
+Proof. exact calls_validator. Qed.
 
 Print Assumptions C02_generated.
 Print Assumptions C02_new_mnemonic.
